@@ -505,3 +505,91 @@ Proof.
   intros Hy Hc.
   exact (points_for_x_of_point 251 0 7 ltac:(lia) x y prime_251 eq_refl (fermat_251 y Hy) Hy Hc).
 Qed.
+
+(* ---- statements as they appear in Props/C10.v ---------------------------------------------------- *)
+Definition fermat_premise (p : Z) : Prop := forall t, 0 < t < p -> (t ^ (p - 1)) mod p = 1.
+
+Lemma sec_roundtrip_generic (p a b : Z) :
+  2 ^ 248 <= p < 2 ^ 256 -> prime p -> p mod 4 = 3 -> fermat_premise p ->
+  forall (x y : Z) (c : bool), 0 <= x < p -> 0 < y < p -> contains_point p a b x y = true ->
+  exists sec, public_pair_to_sec (x, y) c = Ret sec /\
+    length sec = (if c then 33 else 65)%nat /\
+    key_from_sec p a b sec = Ret ((x, y), c).
+Proof.
+  intros Hr Hprime H34 Hf x y c Hx Hy Hc.
+  apply key_from_sec_roundtrip; try assumption; try lia.
+  - apply bit_length_byte_count; assumption.
+  - apply Hf. assumption.
+Qed.
+
+Lemma sec_roundtrip_k1 :
+  prime k1_p -> fermat_premise k1_p ->
+  forall (x y : Z) (c : bool), 0 <= x < k1_p -> 0 <= y < k1_p -> contains_point k1_p k1_a k1_b x y = true ->
+  exists sec, public_pair_to_sec (x, y) c = Ret sec /\
+    length sec = (if c then 33 else 65)%nat /\
+    key_from_sec k1_p k1_a k1_b sec = Ret ((x, y), c).
+Proof.
+  intros Hprime Hf x y c Hx Hy Hc.
+  assert (Hy0 : y <> 0).
+  { intros ->. rewrite (k1_no_y0 Hf x Hx) in Hc. discriminate. }
+  apply sec_roundtrip_generic; try assumption; try lia.
+  - exact k1_p_range.
+  - exact k1_mod4.
+Qed.
+
+Lemma sec_canonical_generic (p a b : Z) :
+  2 ^ 248 <= p < 2 ^ 256 -> p mod 2 = 1 ->
+  forall (sec : bytes) (x y : Z) (c : bool),
+  key_from_sec p a b sec = Ret ((x, y), c) ->
+  0 <= x < p /\ 0 <= y < p /\ contains_point p a b x y = true /\
+  public_pair_to_sec (x, y) c = Ret sec /\
+  ((c = false /\ length sec = 65%nat /\ sec0_is sec x04 = true) \/
+   (c = true /\ length sec = 33%nat /\ (sec0_is sec x02 = true \/ sec0_is sec x03 = true) /\ 0 < y)).
+Proof.
+  intros Hr Hodd sec x y c H.
+  apply key_from_sec_accepts_only_canonical; try assumption; try lia.
+  apply bit_length_byte_count; assumption.
+Qed.
+
+Lemma sec_injective_generic (p a b : Z) :
+  2 ^ 248 <= p < 2 ^ 256 -> p mod 2 = 1 ->
+  forall sec1 sec2 k, key_from_sec p a b sec1 = Ret k -> key_from_sec p a b sec2 = Ret k -> sec1 = sec2.
+Proof.
+  intros Hr Hodd sec1 sec2 k. apply key_from_sec_injective; try assumption; try lia.
+  apply bit_length_byte_count; assumption.
+Qed.
+
+Lemma k1_odd : k1_p mod 2 = 1.
+Proof. vm_compute. reflexivity. Qed.
+
+Lemma key_range_statement (order : Z) :
+  (forall e, 1 <= e < order -> key_private order e = Ret e) /\
+  (forall e, ~ (1 <= e < order) -> key_private order e = Raise E_SECRET) /\
+  (0 < order <= 2 ^ 256 - 1 ->
+     key_private order 0 = Raise E_SECRET /\ key_private order order = Raise E_SECRET /\
+     key_private order (2 ^ 256 - 1) = Raise E_SECRET).
+Proof.
+  split; [intros e; apply key_private_iff|]. split; [intros e; apply key_private_iff|].
+  intros Ho. repeat split; apply key_private_iff; lia.
+Qed.
+
+Lemma key_public_statement (p a b x y : Z) :
+  (contains_point p a b x y = true -> key_public p a b (x, y) = Ret (x, y)) /\
+  (contains_point p a b x y = false -> key_public p a b (x, y) = Raise E_PUBPAIR).
+Proof. apply key_public_iff. Qed.
+
+(* an off-curve uncompressed blob passes sec_to_public_pair but Key.from_sec raises InvalidPublicPairError *)
+Lemma off_curve_refused (p a b : Z) (sec : bytes) (x y : Z) :
+  sec_to_public_pair p a b sec true = Ret (x, y) -> contains_point p a b x y = false ->
+  key_from_sec p a b sec = Raise E_PUBPAIR.
+Proof. intros H1 H2. unfold key_from_sec. rewrite H1. cbn [bind]. unfold key_public. rewrite H2. reflexivity. Qed.
+
+Lemma k1_g_roundtrips :
+  contains_point k1_p k1_a k1_b k1_gx k1_gy = true /\ (k1_gy ^ (k1_p - 1)) mod k1_p = 1 /\
+  (forall c : bool, match public_pair_to_sec (k1_gx, k1_gy) c with
+                    | Ret sec => key_from_sec k1_p k1_a k1_b sec = Ret ((k1_gx, k1_gy), c)
+                    | _ => False end).
+Proof.
+  split; [exact k1_g_on_curve|]. split; [exact k1_g_fermat|].
+  intros [|]; vm_compute; reflexivity.
+Qed.
